@@ -87,7 +87,7 @@ def check_image(ctx, data):
         if p['lba'] != offset:
             ctx.violate(('mbr/partition-start',), '%d want %d' % (p['lba'], offset), fatal=False)
         if p['lba'] + p['count'] != len(data) // 512:
-            ctx.violate(('mbr/partition-does-not-cover-image', 'cyl>1024' if big else 'cyl<=1024'),
+            ctx.violate(('mbr/partition-does-not-cover-image', 'cyl>1024' if big else 'cyl<=1024', 'reopened' if m.hybrid.get('_gen', 0) < m.generation else 'fresh'),
                         'start %d count %d image %d sectors' % (p['lba'], p['count'], len(data) // 512), fatal=False)
         ec, eh, es = p['end_chs']
         want_end = (min(cyls, 1024) - 1, heads - 1, secs)
@@ -142,7 +142,7 @@ def check_image(ctx, data):
             if ents:
                 e0 = ents[0]
                 if e0['first'] != 0 or e0['last'] != iso_size // 512 - 1:
-                    ctx.violate(('gpt/entry.iso-span',), 'first %d last %d iso %d sectors' % (e0['first'], e0['last'], iso_size // 512), fatal=False)
+                    ctx.violate(('gpt/entry.iso-span', 'reopened' if m.hybrid.get('_gen', 0) < m.generation else 'fresh'), 'first %d last %d iso %d sectors' % (e0['first'], e0['last'], iso_size // 512), fatal=False)
             # partitions delimit exactly the sectors of the corresponding El Torito image(s)
             from .. import dec_boot as DB
             et = DB.ElTorito(data).decode([(v.sector, v.raw) for v in img.boots])
